@@ -1,6 +1,7 @@
 (* C13: added types are exact and deduplicated.  Theorems about the mirror of ModuleTypes (Types.v) for all
-   type sections, all addition sequences (no bound on their length) and ANY iteration order of the HashMap from
-   which ModuleTypes::new builds the dedup map:
+   type sections, all addition sequences (no bound on their length) and ANY insertion order in which
+   ModuleTypes::new builds the dedup map (since the repair of D11 the code uses the ascending id order,
+   [asc_ids]; the theorems hold for every order, so in particular for that one):
    A. add_type: soundness, idempotence, preservation (one call);
    B. the dedup map built by ModuleTypes::new is consistent with the types for every order; last visited wins;
    C. sequences (fold_left): soundness of every returned id in the final state, idempotence across the whole
@@ -533,17 +534,40 @@ Proof.
   - apply IH. intros k o i Hk Hi. apply (H (S k) o i Hk Hi).
 Qed.
 
+(* the ascending order visits every id, and parse_types_asc is parse_types under that order *)
+Lemma ids_from_In : forall n first i, (i < n)%nat -> In (first + N.of_nat i) (Types.ids_from first n).
+Proof.
+  induction n as [|n IH]; intros first i H; [lia|].
+  cbn [Types.ids_from]. destruct i as [|i].
+  - left. cbn. lia.
+  - right. replace (first + N.of_nat (S i)) with ((first + 1) + N.of_nat i) by lia. apply IH. lia.
+Qed.
+Lemma asc_ids_cover n : forallb (fun id => memN id (asc_ids n)) (upto n) = true.
+Proof.
+  apply forallb_forall. intros id Hin.
+  assert (G : forall m x, In x (upto m) -> exists i, (i < m)%nat /\ x = N.of_nat i).
+  { induction m as [|m IHm]; intros x Hx; [destruct Hx|].
+    cbn [upto] in Hx. apply in_app_or in Hx. destruct Hx as [Hx|[<-|[]]].
+    - destruct (IHm x Hx) as (i & Hi & ->). exists i. split; [lia|reflexivity].
+    - exists m. split; [lia|reflexivity]. }
+  destruct (G n id Hin) as (i & Hi & ->).
+  unfold memN. apply existsb_exists. exists (N.of_nat i). split; [|apply N.eqb_refl].
+  unfold asc_ids. replace (N.of_nat i) with (0 + N.of_nat i) by lia. apply ids_from_In. exact Hi.
+Qed.
+Lemma parse_types_asc_eq base : parse_types_asc base = parse_types base (asc_ids (length (flat base))).
+Proof. unfold parse_types_asc, parse_types. rewrite parse_groups_spec. reflexivity. Qed.
+
 Theorem model_meets_spec c :
   domain13 c = true -> exists o, model c = Some o /\ holds_on c o = true.
 Proof.
-  unfold domain13. rewrite !andb_true_iff. intros [[[_ Hshape] Hsup] Hcov].
-  unfold model, api_run.
-  destruct (api_fold (tc_ops c) [] _ _ _ _ (parse_inv (tc_base c) (tc_order c) Hcov))
+  unfold domain13. rewrite !andb_true_iff. intros [[_ Hshape] Hsup].
+  unfold model, api_run. rewrite parse_types_asc_eq.
+  destruct (api_fold (tc_ops c) [] _ _ _ _ (parse_inv (tc_base c) (asc_ids (length (flat (tc_base c)))) (asc_ids_cover _)))
     as (ids & added & F1 & F2 & [I1 I2 I3 I4 I5] & F4 & _).
   cbn [app] in F1, I1, I2, I4, I5. rewrite F1.
   rewrite (emit_after_run _ _ _ Hshape I1 I2).
   eexists. split; [reflexivity|].
-  set (st := snd (fold_left api_step (tc_ops c) ([], parse_types (tc_base c) (tc_order c)))) in *.
+  set (st := snd (fold_left api_step (tc_ops c) ([], parse_types (tc_base c) (asc_ids (length (flat (tc_base c))))))) in *.
   set (gs := tc_base c ++ map (fun t => (false, [t])) added).
   assert (Hflat : flat gs = ts_types st) by (unfold gs; rewrite flat_app, flat_singles, I1; reflexivity).
   assert (Hreq : forall k op, nth_error (tc_ops c) k = Some op -> requested op = api_type (fst op) (snd op)).
